@@ -31,12 +31,13 @@ package crypto
 //@   prop C17 C06
 //@   safety
 //@   modifies nothing
-//@   loop 1 invariant !did(call (*base64.Encoding).DecodeString #1) || isNilIface(ret(call (*base64.Encoding).DecodeString #1).1)
+//@   loop 1 unroll 3
 //@   call (*base64.Encoding).DecodeString #1 requires [each-segment-decoded-strictly-as-raw-base64url] arg(0) == ret(call (base64.Encoding).Strict #1)
 //@        && same(arg(call (base64.Encoding).Strict #1, 0), *base64.RawURLEncoding) && arg(1) == string(segment)
-//@        && segment == ret(call bytes.Split #1)[$i-1]
+//@        && segment == ret(call bytes.Split #1)[$iter1]
 //@   ensures [three-segments-all-canonical] isNilIface(result) ==> arg(call bytes.Split #1, 0) == token && len(arg(call bytes.Split #1, 1)) == 1 && arg(call bytes.Split #1, 1)[0] == 46
-//@        && len(ret(call bytes.Split #1)) == 3 && $done1
+//@        && len(ret(call bytes.Split #1)) == 3 && $iter1 == 3
+//@   ensures [no-segment-failed-to-decode] isNilIface(result) ==> isNilIface(ret(call (*base64.Encoding).DecodeString #1).1)
 
 //@ func JWTKidAlg
 //@   prop C17
